@@ -463,7 +463,12 @@ func c19lin(c *run.Ctx) {
 		start := make(chan struct{})
 		keys := []string{"k1", "k2", "k3"}
 		reqs := []string{"r1", "r2"}
-		mkReq := func(id string) *fosite.Request { q := fosite.NewRequest(); q.ID = id; q.Session = world.NewSess("u"); return q }
+		mkReq := func(id string) *fosite.Request {
+			q := fosite.NewRequest()
+			q.ID = id
+			q.Session = world.NewSess("u")
+			return q
+		}
 		for cl := 0; cl < nClients; cl++ {
 			wg.Add(1)
 			seed := r.Int63() + int64(cl)
@@ -592,7 +597,12 @@ func c19hot(c *run.Ctx, model porcupine.Model) {
 	if !c.Quick() {
 		bursts = 60000
 	}
-	mkReq := func(id string) *fosite.Request { q := fosite.NewRequest(); q.ID = id; q.Session = world.NewSess("u"); return q }
+	mkReq := func(id string) *fosite.Request {
+		q := fosite.NewRequest()
+		q.ID = id
+		q.Session = world.NewSess("u")
+		return q
+	}
 	kinds := []string{"jti-set", "jti-mixed", "code-inval", "rt-revoke", "at-revoke"}
 	for b := 0; b < bursts; b++ {
 		mem := storage.NewMemoryStore()
@@ -699,18 +709,18 @@ func c19hot(c *run.Ctx, model porcupine.Model) {
 
 type schedOp struct {
 	name       string
-	grant      int  // which grant it touches (0 / 1)
-	invalidate bool // may invalidate tokens of that grant (revoke, rotate, replay, reuse)
+	grant      int                                          // which grant it touches (0 / 1)
+	invalidate bool                                         // may invalidate tokens of that grant (revoke, rotate, replay, reuse)
 	run        func(w *world.World, env *schedEnv) []string // returns tokens handed to the caller
 }
 
 type schedEnv struct {
-	code  [2]string
-	rt    [2]string
-	at    [2]string
-	dev   string
-	par   string
-	auth  world.Auth
+	code [2]string
+	rt   [2]string
+	at   [2]string
+	dev  string
+	par  string
+	auth world.Auth
 }
 
 func schedOps() []schedOp {
@@ -731,8 +741,14 @@ func schedOps() []schedOp {
 			{fmt.Sprintf("refresh-g%d", g), g, true, func(w *world.World, e *schedEnv) []string {
 				return tok(w.Token(url.Values{"grant_type": {"refresh_token"}, "refresh_token": {e.rt[g]}}, e.auth))
 			}},
-			{fmt.Sprintf("revoke-at-g%d", g), g, true, func(w *world.World, e *schedEnv) []string { w.Revoke(url.Values{"token": {e.at[g]}}, e.auth); return nil }},
-			{fmt.Sprintf("revoke-rt-g%d", g), g, true, func(w *world.World, e *schedEnv) []string { w.Revoke(url.Values{"token": {e.rt[g]}}, e.auth); return nil }},
+			{fmt.Sprintf("revoke-at-g%d", g), g, true, func(w *world.World, e *schedEnv) []string {
+				w.Revoke(url.Values{"token": {e.at[g]}}, e.auth)
+				return nil
+			}},
+			{fmt.Sprintf("revoke-rt-g%d", g), g, true, func(w *world.World, e *schedEnv) []string {
+				w.Revoke(url.Values{"token": {e.rt[g]}}, e.auth)
+				return nil
+			}},
 			{fmt.Sprintf("introspect-g%d", g), g, false, func(w *world.World, e *schedEnv) []string {
 				w.IntrospectAPI(e.at[g], fosite.AccessToken)
 				w.IntrospectAPI(e.rt[g], fosite.RefreshToken)
